@@ -73,6 +73,10 @@ def variants(rng, am):
     m = copy.deepcopy(am)
     m["tag"] = am["tag"].upper()
     yield "tag-wrong-case", m
+    for itag in ("indiMessage", "defVector", "defWritableVector", "setVector", "newVector", "indiMessagePart", "defIndiMessagePart"):
+        m = copy.deepcopy(am)
+        m["tag"] = itag
+        yield f"internal-class-tag:{itag}", m
     kids = am.get("children")
     if kids is None:
         # a kind without children given children of each part kind
@@ -96,6 +100,12 @@ def variants(rng, am):
         m = copy.deepcopy(am)
         m["children"][i]["tag"] = "oneFoo"
         yield f"child-unknown-tag@{i}", m
+        # tags that look like the library's own (abstract) class names
+        for itag in ("defIndiMessagePart", "indiMessagePart", "oneIndiMessagePart", "indiMessage", "defVector", "defWritableVector",
+                     "setVector", "newVector", "message", "oneLight", "object", "type"):
+            m = copy.deepcopy(am)
+            m["children"][i]["tag"] = itag
+            yield f"child-internal-class-tag:{itag}@{i}", m
         for a in G.PARTS[ctag]["req"]:
             m = copy.deepcopy(am)
             m["children"][i]["attrs"].pop(a, None)
